@@ -67,6 +67,27 @@ type Node struct {
 // KS is a named string type (map keys of kind string that are not `string`).
 type KS string
 
+// two DISTINCT struct types that print alike ("main.Line"): function-local types of the same name.
+// A rule set registered for one of them must not reach the other.
+func lineTypeA() reflect.Type {
+	type Line struct {
+		Name string `valid:"required"`
+		Qty  int    `valid:"to=1~5"`
+	}
+	return reflect.TypeOf(Line{})
+}
+
+func lineTypeB() reflect.Type {
+	type Line struct {
+		Name string `valid:"to=2~4"`
+		Qty  int
+		Note string `valid:"required"`
+	}
+	return reflect.TypeOf(Line{})
+}
+
+var lookAlikeTypes = []reflect.Type{lineTypeA(), lineTypeB()}
+
 func chain(r *rand.Rand, depth int) *Node {
 	var head *Node
 	for i := 0; i < depth; i++ {
@@ -365,6 +386,9 @@ func (g *wgen) nestedType(depth int) reflect.Type {
 	var st reflect.Type
 	if chance(g.r, 0.25) {
 		st = pick(g.r, namedStructs[:2])
+		if chance(g.r, 0.3) {
+			st = pick(g.r, lookAlikeTypes)
+		}
 	} else {
 		st = g.structType(depth - 1)
 	}
@@ -919,7 +943,7 @@ func walkerCase(r *rand.Rand, p walkProfile) Case {
 	if chance(r, p.pOverride) {
 		call.typed = map[interface{}]valid.RM{}
 		cands := append([]reflect.Type{t}, g.structs...)
-		cands = append(cands, namedStructs[0], namedStructs[1])
+		cands = append(cands, namedStructs[0], namedStructs[1], lookAlikeTypes[0], lookAlikeTypes[1])
 		for i, n := 0, 1+r.IntN(2); i < n; i++ {
 			st := pick(r, cands)
 			rm := valid.RM{}
